@@ -12,9 +12,10 @@
   imaginary-time value of a term, `disconnectedFreq/Tau` for the subtracted `⟨A⟩⟨B⟩` part.
 
   All statements are re-exports / direct combinations of theorems of `Spec/Susc.lean` and
-  `Spec/Bridge.lean` (fully proved).  The degeneracy test is the exact one (`E_m = E_n`).
+  `Spec/Bridge.lean` (fully proved).  The degeneracy test is the exact one (`E_m = E_n`) in the first five theorems; the section at the end states what the extracted TOLERANCE tests change (finding F14).
 -/
 import PomerolModel.Spec.Bridge
+import PomerolModel.Spec.SuscTol
 
 namespace Pomerol.Properties.C14
 open Matrix Complex Pomerol Pomerol.Spec
@@ -88,5 +89,86 @@ theorem disconnected_part (d : EigenData ι) (aveA aveB : ℂ) (k : ℤ) :
 example : Gen.Susc.zeroPoleIncrement (2 : ℂ) 3 (1/2 : ℝ) = 3 := by
   rw [Bridge.susc_zeroPole]
   norm_num
+
+/-! ### the library's tolerance tests (finding F14)
+
+The theorems above idealise the two tolerance tests of `SusceptibilityPart::compute` to the exact
+test `E_m = E_n`.  Below, `suscWithTolerances d A B k rtol mtol` is the value obtained with the
+EXTRACTED tests: for every pair `(n, m)`, if `Gen.Susc.isZeroPole (E_m − E_n) rtol`
+(`|E_m − E_n| < rtol`) the pair adds `A_nm B_mn w_n` to the zero-pole weight (contributing `β·`that
+at `k = 0` only); otherwise its term `−R/(iΩ_k − P)`, `R = A_nm B_mn (w_n − w_m)`, is kept only if
+`Gen.Susc.residueKept R mtol` (`mtol < |R|`). -/
+
+/-- The extracted tolerance constants of `SusceptibilityPart` (`ReduceResonanceTolerance`,
+`MatrixElementTolerance`) are both `10⁻⁸`. -/
+theorem library_tolerances :
+    (Gen.Susc.tolResonance : ℝ) = 1 / 10 ^ 8 ∧ (Gen.Susc.tolMatrixElement : ℝ) = 1 / 10 ^ 8 :=
+  Bridge.susc_tolerances
+
+/-- What the library computes, with its own tolerances `10⁻⁸` (the extracted constants), accounted
+for exactly: it is the definition `∫₀^β ⟨A(τ)B(0)⟩ e^{iΩ_k τ} dτ`
+MINUS the exact Lehmann terms `−R/(iΩ_k − P)` of all pairs of levels that are split by at least
+`10⁻⁸` but whose residue `R = A_nm B_mn (w_n − w_m)` has modulus at most `10⁻⁸` (these terms are
+dropped by the residue filter),
+MINUS, for all pairs of levels that are split by less than `10⁻⁸` without being exactly
+degenerate, the difference between their exact Lehmann term and the zero-pole treatment
+(`β w_n A_nm B_mn` at `k = 0`, nothing at `k ≠ 0`) they receive instead.
+Nothing else is lost or added: for every spectrum, all matrices, every `k : ℤ`. -/
+theorem value_with_library_tolerances (d : EigenData ι) (A B : Matrix ι ι ℂ) (k : ℤ) :
+    suscWithTolerances d A B k Gen.Susc.tolResonance Gen.Susc.tolMatrixElement =
+      d.suscDef A B k
+      - (∑ n, ∑ m,
+          if (1 / 10 ^ 8 : ℝ) ≤ |d.E m - d.E n| ∧
+              ‖A n m * B m n * ((d.w n : ℂ) - (d.w m : ℂ))‖ ≤ (1 / 10 ^ 8 : ℝ) then
+            -(A n m * B m n * ((d.w n : ℂ) - (d.w m : ℂ)))
+              / (I * (d.Ω k : ℂ) - ((d.E m - d.E n : ℝ) : ℂ)) else 0)
+      - (∑ n, ∑ m,
+          if 0 < |d.E m - d.E n| ∧ |d.E m - d.E n| < (1 / 10 ^ 8 : ℝ) then
+            -(A n m * B m n * ((d.w n : ℂ) - (d.w m : ℂ)))
+              / (I * (d.Ω k : ℂ) - ((d.E m - d.E n : ℝ) : ℂ))
+            - (if k = 0 then (d.β : ℂ) * (d.w n : ℂ) * A n m * B m n else 0) else 0) := by
+  rw [Bridge.susc_tolerances.1, Bridge.susc_tolerances.2]
+  exact suscWithTolerances_eq d A B k _ _ (by norm_num)
+
+/-- The library's value IS the definition when there is no near-degeneracy and no tiny residue:
+if every pair of levels is either exactly degenerate, or split by at least the resonance tolerance
+with a residue `A_nm B_mn (w_n − w_m)` that is either larger than the matrix-element tolerance or
+exactly zero (e.g. a vanishing matrix element).  Any tolerances `rtol > 0`, `mtol`; in particular
+the library's `10⁻⁸`.  (`Spec/SuscTol.lean`, `twoLevel_clean`, shows a two-level system satisfying
+the hypothesis with the library's tolerances.) -/
+theorem exact_when_no_near_degeneracy (d : EigenData ι) (A B : Matrix ι ι ℂ) (k : ℤ)
+    (rtol mtol : ℝ) (hr : 0 < rtol)
+    (h : ∀ n m, d.E m = d.E n ∨ (rtol ≤ |d.E m - d.E n| ∧
+      (mtol < ‖A n m * B m n * ((d.w n : ℂ) - (d.w m : ℂ))‖ ∨
+        A n m * B m n * ((d.w n : ℂ) - (d.w m : ℂ)) = 0))) :
+    suscWithTolerances d A B k rtol mtol = d.suscDef A B k :=
+  suscWithTolerances_exact_of_clean_spectrum d A B k rtol mtol hr h
+
+/-- KNOWN FINDING F14 (a defect of the library, stated about the extracted tests and constants).
+The residue filter `|Residue| > 10⁻⁸` drops terms whose static contribution `Residue/Pole` is of
+order one.  Witness: two levels `0` and `2·10⁻⁸` at `β = 1`, `A = |0⟩⟨1|`, `B = |1⟩⟨0|`.  The pair
+is not a zero pole (`2·10⁻⁸ ≥ 10⁻⁸`), its residue `w₀ − w₁ = tanh(10⁻⁸)` is `≤ 10⁻⁸`, so the term is
+dropped and the library's formula gives `χ(iΩ₀) = 0`; the definition `∫₀^β ⟨A(τ)B(0)⟩ dτ` is real
+and `≥ 1/5` (its value is `≈ β/2 = 1/2`).  In general (`residue_filter_loses_static_term`): for a
+single pair outside the window with `|a b (w_n − w_m)| ≤ mtol` the library gives `0` where the
+definition is `a b (w_n − w_m)/(E_m − E_n)`. -/
+theorem known_finding_F14_residue_filter :
+    ∃ (d : EigenData (Fin 2)) (A B : Matrix (Fin 2) (Fin 2) ℂ),
+      d.β = 1 ∧ d.E = ![0, 2 / 10 ^ 8] ∧ A = Matrix.single 0 1 1 ∧ B = Matrix.single 1 0 1 ∧
+      suscWithTolerances d A B 0 Gen.Susc.tolResonance Gen.Susc.tolMatrixElement = 0 ∧
+      (d.suscDef A B 0).im = 0 ∧ 1 / 5 ≤ (d.suscDef A B 0).re :=
+  residue_filter_counterexample
+
+/-- The parametric form of F14: `A` and `B` with the single non-zero entries `A n m = a`,
+`B m n = b`; levels `n`, `m` with `E_m ≠ E_n` outside the resonance window; residue not above the
+matrix-element tolerance.  Then the value with tolerances at `k = 0` is `0`, the definition is
+`a b (w_n − w_m)/(E_m − E_n)`. -/
+theorem F14_parametric (d : EigenData ι) (n m : ι) (a b : ℂ) (rtol mtol : ℝ)
+    (hE : d.E m ≠ d.E n) (hP : rtol ≤ |d.E m - d.E n|)
+    (hR : ‖a * b * ((d.w n : ℂ) - (d.w m : ℂ))‖ ≤ mtol) :
+    suscWithTolerances d (Matrix.single n m a) (Matrix.single m n b) 0 rtol mtol = 0 ∧
+    d.suscDef (Matrix.single n m a) (Matrix.single m n b) 0
+      = a * b * ((d.w n : ℂ) - (d.w m : ℂ)) / ((d.E m - d.E n : ℝ) : ℂ) :=
+  residue_filter_loses_static_term d n m a b rtol mtol hE hP hR
 
 end Pomerol.Properties.C14
